@@ -7,6 +7,15 @@ from vmcommon import N, B, S, Var, Arr, Code, Nul, Un, Bin, E, Asg, Loc, Prog
 PID = "C18"
 TY = {"s": 115, "a": 97, "p": 112, "1": 49}
 FINDING_ASM = "assembly-front-end"
+FINDING_EVAL = "eval-spawn-outlives-call"
+# a script spawned inside __EVAL(...) while the text is preprocessed: it must not outlive the call (finding eval-spawn-outlives-call)
+_EV = '__EVAL(0 spawn {leaked = 1; diag_log "LEAK"})'
+EVAL_SPAWN = [   # (shape, type, text of the first call, its documented code, may the script still be pending when the call returns?)
+    ("p", "p", ("a %s b" % _EV).encode(), 0, True),
+    ("1", "1", ("%s; 1" % _EV).encode(), 0, True),
+    ("parse-failure", "s", ("%s +* 1" % _EV).encode(), -3, True),
+    ("s-control", "s", ("%s; 1" % _EV).encode(), 0, False),
+]
 
 
 def hx(b):
@@ -240,6 +249,13 @@ def main(replay=None):
             h.add(op="K", h="0", cd=21, ty="s", prog=pr_, cls=cl_, multi=nm); h.add(op="S", h="0")
             h.add(op="K", h="0", cd=22, ty="s", prog=Prog(E(Un("diag_log", Arr(Var("late"), Var("z"))))), cls="run"); h.add(op="D", h="0")
             hists.append(("multi:" + nm, h))
+        for shape, ty_, text_, code_, pending_ in EVAL_SPAWN:
+            h = Hist(); h.add(op="C", user=6, mr=0)
+            h.add(op="K", h="0", cd=51, ty=ty_, text=text_, cls="evalspawn", shape=shape, code=code_)
+            h.add(op="S", h="0")
+            h.add(op="K", h="0", cd=52, ty="s", text=b'diag_log str (isNil "leaked"); 5', cls="evalspawn2", shape=shape)
+            h.add(op="S", h="0"); h.add(op="D", h="0")
+            hists.append(("evalspawn:" + shape, h))
         for _ in range(40 if thorough else 12):
             h = Hist(); h.add(op="C", user=8, mr=0)
             add_self_ending(h, rng, 0, 31)
@@ -261,7 +277,7 @@ def main(replay=None):
                 o["text"] = text_of[o["prog"]]
     # 2. front ends of the implementation on every (type, text)
     keys = sorted({((o["ty"] if o["op"] == "K" else "L"), o["text"]) for _, h in hists for o in h.ops
-                   if o["op"] in ("K", "L") and o.get("cls") not in ("invalid-handle", "asm-finding")})
+                   if o["op"] in ("K", "L") and o.get("cls") not in ("invalid-handle", "asm-finding", "evalspawn", "evalspawn2")})
     rc, pr, _ = V.run_lines_parallel([hapi, "probe"], ["%s\t%s" % (hx(t), hx(x)) for t, x in keys], timeout=3000)
     probe = dict(zip(keys, pr))
 
@@ -301,7 +317,7 @@ def main(replay=None):
                     hops.append("K%s:%d:%s:%s:%s" % (o["h"], o["cd"], hx(o["ty"]), hx(buf), ln))
                 if o.get("cls") == "invalid-handle":
                     fr = "F-"
-                elif o.get("cls") in ("opaque", "asm-finding") or (o.get("cls") == "selfend" and o.get("prog") is None):
+                elif o.get("cls") in ("opaque", "asm-finding", "evalspawn", "evalspawn2") or (o.get("cls") == "selfend" and o.get("prog") is None):
                     fr = None
                 else:
                     fr, found = front(o)
@@ -341,6 +357,7 @@ def main(replay=None):
         return out
 
     stats, samples, distinct = {}, [], set()
+    evalspawn_leaks = []
     evaluations = 0
     EXPECT = {"ok": 0, "err": -6, "endless": -6, "parsefail": -3, "ppfail": -2, "invalid-handle": -1}
 
@@ -400,6 +417,10 @@ def main(replay=None):
                     want = [0, -2, -3, -6]
                 elif cls == "selfend":
                     want = [0]        # the script asked for the end of the run: no runtime error, nothing failed
+                elif cls == "evalspawn":
+                    want = [o["code"]]
+                elif cls == "evalspawn2":
+                    want = [0]
                 elif o["op"] == "K" and o["ty"] not in TY and cls != "ppfail":
                     want = [-5]
                 elif o["op"] == "K" and o["ty"] == "p" and cls != "ppfail":
@@ -429,6 +450,32 @@ def main(replay=None):
                                       "for this very call (0 is documented for `executed to completion without a runtime error`)")
                     if o["op"] == "P" and ret == 0:
                         pass
+            # nothing but globals and config carries over to the next call - in particular no pending script: a script spawned
+            # inside __EVAL while a call's text was preprocessed must have run inside that call or be gone (implementation-only
+            # oracle: the model has no notion of a front end that creates contexts)
+            if why is None and o.get("cls") in ("evalspawn", "evalspawn2"):
+                texts_ = [r[3] for r in recs if len(r) > 3]
+                leak = None
+                if o["cls"] == "evalspawn" and o["shape"] == "s-control" and "M<LEAK>" not in texts_:
+                    why = "the script spawned inside __EVAL of an executed call did not run inside that call"
+                elif o["cls"] == "evalspawn2":
+                    if "M<LEAK>" in texts_:
+                        leak = "the log of this call (call data %d) contains the LEAK line of a script that an EARLIER call spawned" % o["cd"]
+                    elif o["shape"] != "s-control" and "M<false>" in texts_:
+                        leak = "`leaked` is defined although the call that mentioned it executed nothing"
+                    elif o["shape"] != "s-control" and "M<true>" not in texts_:
+                        why = "the probe call did not report isNil \"leaked\""
+                    elif o["shape"] == "s-control" and "M<false>" not in texts_:
+                        why = "a global set by a script that ran inside the previous call did not persist"
+                if leak:
+                    evalspawn_leaks.append(o["shape"])
+                    if o["shape"] in ("p", "1", "parse-failure") and run.known.has(PID, FINDING_EVAL):
+                        run.known_finding(FINDING_EVAL)      # exactly the recorded defect on exactly its witnesses
+                    else:
+                        run.violation("a pending script carried over to the next sqfvm_call: " + leak +
+                                      " (first call: type '%s', %r)" % (h.ops[k - 2]["ty"], h.ops[k - 2]["text"].decode("latin-1")), dict(rep, at=k))
+                        bad = True
+                        break
             if why:
                 if o.get("cls") == "asm-finding" and run.known.has(PID, FINDING_ASM):
                     run.known_finding(FINDING_ASM)
@@ -478,6 +525,8 @@ def main(replay=None):
                        "config loads (ok/preprocess-failing/parse-failing) and isClass probes, NULL / zeroed / wrong-magic handles; per call the return code and the "
                        "callback records (user, call data, severity <= 3, diag_log / value text) vs the documented contract and vs ApiDefs.step (repaired) fed with the "
                        "implementation's own front-end answers; distinct = (op, class, type, code, number of records)")
+    run.cov["eval_spawn_witnesses"] = {"shapes": [x[0] for x in EVAL_SPAWN], "leaked_into_the_next_call": evalspawn_leaks,
+                                       "judged": "implementation only (the model's front ends cannot create contexts: it has no notion of this leak)"}
     run.cov["input_distribution"] = stats
     run.cov["samples"] = samples
     run.cov["trusted_base"] = ["Coq 8.16.1 kernel", "ExtrOcamlBasic extraction + ocaml/api_driver.ml", "harness/h_api.cpp (dlopen of the library, clock_gettime interposed through libstdc++)",
